@@ -13,7 +13,8 @@
    c = byte codes (for TX: 1000+b stands for a numeric character reference to byte b).
    Output tokens additionally: "TC" = CDATA section rewritten as escaped text. *)
 EXTENDS XmlInfoset, TLC, Json
-CONSTANTS MaxLen, Vocab, Emit, EmitMod
+CONSTANTS MaxLen, Vocab, Emit, EmitMod,
+          Prefix      \* token indices every generated document starts with (<<>> = none; must leave the root open)
 VARIABLES inp, depth, rootDone, phase, keep, pos, omit, out
 vars == <<inp, depth, rootDone, phase, keep, pos, omit, out>>
 
@@ -136,7 +137,9 @@ StepEOF ==
   /\ phase = "run" /\ pos > Len(inp)
   /\ phase' = "done" /\ UNCHANGED <<inp, depth, rootDone, keep, pos, omit, out>>
 
-Init == /\ inp = <<>> /\ depth = 0 /\ rootDone = FALSE /\ phase = "gen" /\ keep = FALSE
+PrefixDepth == FoldLeft(LAMBDA d, t : CASE Tok(t).k = "ST" -> d + 1 [] Tok(t).k = "ET" -> d - 1 [] OTHER -> d, 0, Prefix)
+ASSUME Prefix = <<>> \/ PrefixDepth > 0
+Init == /\ inp = Prefix /\ depth = PrefixDepth /\ rootDone = FALSE /\ phase = "gen" /\ keep = FALSE
         /\ pos = 0 /\ omit = FALSE /\ out = <<>>
 Next == \/ \E t \in 1..NV : Gen(t)
         \/ \E kw \in BOOLEAN : Start(kw)
@@ -224,6 +227,17 @@ TextsT == TextsQ \o << T("TX", <<1032, 120>>), T("TX", <<1062>>), T("TX", <<93, 
 CDataT == << T("CD", <<>>), T("CD", <<120>>), T("CD", <<32, 120>>), T("CD", <<120, 32>>), T("CD", <<60>>),
              T("CD", <<93, 93>>), T("CD", <<62>>) >>
 VocabThorough == Tags \o TextsT \o CDataT \o OtherQ \o << T("DT", <<97>>) >>
+(* "Window" family: documents that start with an open root whose last character data did not end in a blank
+   (text "x" or CDATA "x": omitSpace is false), followed by every continuation over a small vocabulary.  This
+   reaches, within a bound the quick tier affords, the look-ahead situations that need history: a start tag
+   whose whitespace-only text is looked at by StartTagClose and then looks ahead itself over comments / PIs
+   while tokens are still unread in xml/buffer.go's TokenBuffer (pos > 0, unread > 0, no growth). *)
+VocabWindow == << T("ST", <<97>>), T("ET", <<97>>), T("VT", <<98>>), T("TX", <<120>>), T("TX", <<32>>), T("TX", <<32, 120, 32>>),
+                 T("CD", <<120>>), T("CD", <<32, 120, 32>>), T("CM", <<99>>), T("PI", <<112>>) >>
+PrefixNone == <<>>
+PrefixOpenText == <<1, 4>>           \* <a>x
+PrefixOpenCdata == <<1, 7>>          \* <a><![CDATA[x]]>
+PrefixOpenTextOpen == <<1, 4, 1>>    \* <a>x<a>
 \* random walks only (not exhaustive): newline blanks, long blank runs, CDATA that is kept / blank-only / with "&",
 \* blanks that come from references, CR LF
 VocabSim == VocabThorough \o << T("TX", <<10, 32>>), T("TX", <<32, 32, 120, 9, 10, 121>>), T("CD", <<97, 38, 98>>),
